@@ -133,3 +133,67 @@ def parse_diag_states(text):
         if " ==> " in l and " <- " in l: cur["items"].append(l)
         elif l.startswith("On "): cur["lines"].append(l)
     return states
+
+def reference_parse(run, cid, inp, max_steps=20000):
+    """The documented behaviour (LR parsing by the dumped REAL table, bottom-up tree building, the README's recovery
+    algorithm, lazy lexing) written directly from the documentation; returns (result string, [quiet messages], contextual rule log).
+    result: 'VALUE <tree>' | 'NONE' | 'LOOP' | 'UNDEFINED' (the table leads outside what the documentation defines)"""
+    c = run.gis[cid]; rows = run.real[cid]["rows"]; names = term_names(run, cid); b = inp["bytes"]
+    ntc = c["ntc"]; T = c["tc"] - 2; eof = T; err = T + 1
+    ctxflags = run.carriers[c["carrier"]]["contextual"]
+    toks, end = tokenise(run, cid, inp)
+    stack = [0]; vals = []; msgs = []; ctx = []; i = 0; steps = 0
+    def cur():
+        """(term, start, failure message or None)"""
+        if i < len(toks): return toks[i][0], toks[i][1], None
+        if end[0] == "eof": return eof, end[1], None
+        p = true_pos(b, end[1]); return None, end[1], f"[{p[0]}:{p[1]}] PARSE: Unexpected character: " + chr(b[end[1]])
+    def reduce(rii):
+        l, r, n = c["ri"][rii]
+        if n > len(stack) - 1 or n > len(vals): return False
+        args = vals[len(vals) - n:] if n else []
+        if n: del stack[-n:]; del vals[-n:]
+        k, a, _ = rows[stack[-1]][l]
+        if a < 0: return False
+        stack.append(a); vals.append("r%d(%s)" % (r, ",".join(args)))
+        if r < len(ctxflags) and ctxflags[r]: ctx.append(r)
+        return True
+    while True:
+        steps += 1
+        if steps > max_steps: return "LOOP", msgs, ctx
+        t, st, fail = cur()
+        if fail: msgs.append(fail); return "NONE", msgs, ctx
+        k, a, _ = rows[stack[-1]][ntc + t]
+        if k == 2:
+            if t == eof: return "UNDEFINED", msgs, ctx
+            s0, l0 = toks[i][1], toks[i][2]; p = true_pos(b, s0)
+            stack.append(a); vals.append("t[%s]@%d:%d" % (bytes(b[s0:s0 + l0]).hex(), p[0], p[1])); i += 1
+        elif k == 4 or k == 5:
+            if a < 0 or not reduce(a): return "UNDEFINED", msgs, ctx
+        elif k == 1:
+            return ("VALUE " + vals[0]) if vals else "UNDEFINED", msgs, ctx
+        elif k == 3: return "UNDEFINED", msgs, ctx
+        else:
+            p = true_pos(b, st); msgs.append(f"[{p[0]}:{p[1]}] PARSE: Syntax error: Unexpected '{names[t]}'")
+            # recovery: discard states only until the topmost one that can act on the error symbol; act; repeat until it is shifted
+            while True:
+                steps += 1
+                if steps > max_steps: return "LOOP", msgs, ctx
+                ke, ae, _ = rows[stack[-1]][ntc + err]
+                if ke == 0:
+                    stack.pop()
+                    if vals: vals.pop()
+                    if not stack: return "NONE", msgs, ctx
+                elif ke == 4 or ke == 5:
+                    if ae < 0 or not reduce(ae): return "UNDEFINED", msgs, ctx
+                elif ke == 3:
+                    stack.append(ae); vals.append("err"); break
+                else: return "UNDEFINED", msgs, ctx
+            # discard input terms until one the parser can act on
+            while True:
+                t, st, fail = cur()
+                if fail: msgs.append(fail); return "NONE", msgs, ctx
+                k2, a2, _ = rows[stack[-1]][ntc + t]
+                if k2 != 0: break
+                if t == eof: return "NONE", msgs, ctx
+                i += 1
